@@ -666,6 +666,14 @@ pub mod verif_hooks {
     use super::*;
     use crate::chmux::credit::verif_hooks as credit_hooks;
 
+    /// Nameable alias of the crate-private receive queue message type.
+    pub type VPortReceiveMsg = PortReceiveMsg;
+
+    /// The queue feeding a receiver.
+    pub fn receiver_queue(r: &mut Receiver) -> &mut mpsc::UnboundedReceiver<PortReceiveMsg> {
+        &mut r.rx
+    }
+
     pub enum PortReceiveView {
         Data { buf: Bytes, first: bool, last: bool, credit: u32 },
         PortRequests { requests: Vec<Request>, first: bool, last: bool, credit: u32 },
